@@ -45,6 +45,10 @@ def spectra(gaps=None):
     out.append(("mixed:-3,-2,-2", (-3.0, -2.0, -2.0), "indef"))
     out.append(("mixed:-1,0.5,2", (-1.0, 0.5, 2.0), "indef"))
     out.append(("mixed:-2,-2,1", (-2.0, -2.0, 1.0), "indef"))
+    # spectra symmetric about their mean: the deviator has determinant exactly 0 (pure shear), which is the
+    # sign(0) corner of the trigonometric root selection in eigen_sym33_unit
+    out.append(("sym:1,2,3", (1.0, 2.0, 3.0), "spd"))
+    out.append(("sym:-1,0,1", (-1.0, 0.0, 1.0), "indef"))
     return out
 
 
@@ -101,6 +105,9 @@ def orientations(seed, extended=False):
     for i, (a, b, c) in enumerate(EULER):
         out.append(("euler:%d" % i, rot_z(a) @ rot_x(b) @ rot_z(c)))
     out.append(("generic", generic_rotation(seed)))
+    for axis in range(3):
+        for kout in range(3):
+            out.append(("q45:%d%d" % (axis, kout), exact45(axis, kout)))
     if extended:
         for l, t in INPLANE:
             out.append(("ry:%s" % l, rot_y(t)))
@@ -121,6 +128,38 @@ def sym_directions():
                 E[i, j] = E[j, i] = onp.sqrt(0.5)
             out.append(("e%d%d" % (i, j), E))
     return out
+
+
+def exact45(axis, kout):
+    """Orthogonal matrix of the exactly representable 45-degree in-plane configuration: eigenvalue number `kout`
+    belongs to the coordinate axis `axis`, the other two to (e_i -+ e_j)/sqrt(2) in the plane normal to it."""
+    i, j = [a for a in range(3) if a != axis]
+    h = onp.sqrt(0.5)
+    vi, vj, vk = onp.zeros(3), onp.zeros(3), onp.zeros(3)
+    vi[i], vi[j] = h, -h
+    vj[i], vj[j] = h, h
+    vk[axis] = 1.0
+    cols = [vi, vj]
+    cols.insert(kout, vk)
+    return onp.stack(cols, axis=1)
+
+
+def compose_labelled(label, Q, lam, scale):
+    """compose(), except that the q45 orientations are built entry by entry so that the two in-plane diagonal
+    entries are EXACTLY equal and the out-of-plane couplings EXACTLY zero (a rotation matrix with rounded
+    1/sqrt(2) entries never produces that; simple-shear and pure-shear states in user code do)."""
+    if not label.startswith("q45:"):
+        return compose(Q, lam, scale)
+    axis, kout = int(label[4]), int(label[5])
+    i, j = [a for a in range(3) if a != axis]
+    ls = [float(x) for x in lam]
+    lk = ls.pop(kout)
+    li, lj = ls
+    A = onp.zeros((3, 3))
+    A[i, i] = A[j, j] = 0.5 * (li + lj)
+    A[i, j] = A[j, i] = 0.5 * (lj - li)
+    A[axis, axis] = lk
+    return scale * A
 
 
 def compose(Q, lam, scale):
